@@ -302,3 +302,20 @@ Proof.
   - apply (edi_stack_enc_spec cp Hcp); assumption.
   - apply (edi_stack_enc_spec cp Hcp); try assumption. rewrite <- Hc. exact Ha.
 Qed.
+
+(* both utf-8 stacks at once: the full statement stack_chunk_invariant_partial left open *)
+Theorem stack_chunk_invariant crlf N buflen delim esc gasB gas fuel cs cs' wl wl' t rl rt :
+  4 <= N -> buflen <= MaxScanTokenSize -> full_rune delim = true ->
+  concat cs = concat cs' -> runs_ok cs = true -> runs_ok cs' = true ->
+  12 * (N + weight cs) + 6 < gasB -> 12 * (N + weight cs) + 6 < gas ->
+  12 * (N + weight cs') + 6 < gasB -> 12 * (N + weight cs') + 6 < gas ->
+  a_bom_lines N fuel (concat cs, t) = Ok rl ->
+  a_edi_tokens crlf delim esc fuel (concat cs, t) = Ok rt ->
+  (bom_lines N gas fuel (mkSrc cs wl t) = Ok rl /\ bom_lines N gas fuel (mkSrc cs' wl' t) = Ok rl) /\
+  (edi_tokens_rd source io_read crlf N buflen delim esc gasB gas fuel (mkSrc cs wl t) = Ok rt /\
+   edi_tokens_rd source io_read crlf N buflen delim esc gasB gas fuel (mkSrc cs' wl' t) = Ok rt).
+Proof.
+  intros. split.
+  - apply stack_lines_chunk_invariant; try assumption; lia.
+  - apply stack_chunk_invariant_edi; assumption.
+Qed.
